@@ -124,4 +124,21 @@ def bindsOf (s : St) (p : Nat) : List Entry := s.binds.filter (·.peer = p)
 def notifyTargets (s : St) (sEnt : List Nat) (sFeat : Nat) : List (Nat × List Nat × Nat) :=
   (s.subs.filter fun e => e.sEnt = sEnt && e.sFeat = sFeat).map fun e => (e.peer, e.cEnt, e.cFeat)
 
+/-- one call, drop or entity removal; a history is a list of these -/
+inductive Op
+  | bind (p : Nat) (cEnt : List Nat) (cFeat : Nat) (sEnt : List Nat) (sFeat typ : Nat)
+  | unbind (p cDev : Nat) (cEnt : List Nat) (cFeat : Nat) (sEnt : List Nat) (sFeat : Nat)
+  | sub (p : Nat) (cEnt : List Nat) (cFeat : Nat) (sEnt : List Nat) (sFeat typ : Nat)
+  | unsub (p cDev : Nat) (cEnt : List Nat) (cFeat : Nat) (sEnt : List Nat) (sFeat : Nat)
+  | drop (p : Nat)
+  | dropEnt (p : Nat) (ent : List Nat)
+
+def step (c : Cfg) (s : St) : Op → St
+  | .bind p ce cf se sf t => (addBind s p ce cf se sf t).1
+  | .unbind p cd ce cf se sf => (delBind c s p cd ce cf se sf).1
+  | .sub p ce cf se sf t => (addSub s p ce cf se sf t).1
+  | .unsub p cd ce cf se sf => (delSub c s p cd ce cf se sf).1
+  | .drop p => dropPeer c s p
+  | .dropEnt p ent => dropEntity c s p ent
+
 end Spine.Reg
